@@ -3092,6 +3092,9 @@ func (pc *PeerConnection) generateMatchedSDP(
 
 		kind := NewRTPCodecType(media.MediaName.Media)
 		if kind == 0 {
+			// A media type we do not support still gets its m-section, rejected in place (RFC 3264 Section 6).
+			mediaSections = append(mediaSections, mediaSection{id: midValue, unsupported: media})
+
 			continue
 		}
 		direction := getPeerDirection(media)
